@@ -1,7 +1,7 @@
 """Contracts of the SequenceParameters forwarders: same postcondition as the backend method, stated over
 self.SeqObj; pH-taking getters reject pH outside [0,14] before the backend is called (C09.c)."""
 from .common import SEQ, mk_sequence
-from . import seq_core, seq_comp, seq_linear
+from . import seq_core, seq_comp, seq_linear, seq_kappa
 
 SP = 'localcider/sequenceParameters.py:SequenceParameters.'
 KB = SEQ + ':Sequence.'
@@ -23,7 +23,7 @@ def mk_seqparams(**kw):
 
 
 def backend_contract(name):
-    for m in (seq_core, seq_comp, seq_linear):
+    for m in (seq_core, seq_comp, seq_linear, seq_kappa):
         if KB + name in m.CONTRACT:
             return m.CONTRACT[KB + name]
     raise KeyError(name)
@@ -33,7 +33,8 @@ def forward(spname, backend, with_ph=False, extra=None, rename=None):
     b = backend_contract(backend)
 
     def rn(e):
-        e = e.replace('self.', 'self.SeqObj.')
+        import re
+        e = re.sub(r'\bself\b', 'self.SeqObj', e)
         for a, bb in (rename or {}).items():
             e = e.replace(a, bb)
         return e
@@ -42,9 +43,17 @@ def forward(spname, backend, with_ph=False, extra=None, rename=None):
     if b.get('raises'):
         c['raises'] = [(en, rn(cond)) for en, cond in b['raises']]
     if 'cases' in b:
-        c['cases'] = [dict(cs, params={(rename or {}).get(k, k): v for k, v in cs.get('params', {}).items()}) for cs in b['cases']]
+        c['cases'] = []
+        for cs in b['cases']:
+            d = {k: v for k, v in cs.items() if k not in ('self',)}
+            d['params'] = {(rename or {}).get(k, k): v for k, v in cs.get('params', {}).items()}
+            d['requires'] = [rn(r) for r in cs.get('requires', [])] + (['self.SeqObj.dmax == -1'] if cs.get('tag') == 'cache-empty' else [])
+            d['ensures'] = [rn(r) for r in cs.get('ensures', [])]
+            c['cases'].append(d)
     if 'returns' in b:
         c['returns'] = b['returns']
+    if b.get('modifies'):
+        c['modifies'] = ['SeqObj.' + f for f in b['modifies']]
     if with_ph:
         c['raises'] = c.get('raises', []) + [('SequenceException', 'pH is not None and Or(pH < 0, pH > 14)')]
     if extra:
@@ -69,3 +78,6 @@ CONTRACT[SP + '__verify_pH'] = dict(
 for sp_, be_ in [('get_linear_sigma', 'linearDistOfSigma'), ('get_linear_NCPR', 'linearDistOfNCPR'), ('get_linear_FCR', 'linearDistOfFCR'),
                  ('get_linear_hydropathy', 'linearDistOfHydropathy'), ('get_linear_sequence_composition', 'linearCompositions')]:
     forward(sp_, be_, rename={'bloblen': 'blobLen'})
+
+for sp_, be_ in [('get_kappa', 'kappa'), ('get_Omega_sequence', 'Omega_seq'), ('get_deltaMax', 'deltaMax')]:
+    forward(sp_, be_)
